@@ -2,7 +2,7 @@
 T1 bridge for pkg/socketcan/frame.go and Frame.Validate (C06): encodeFrame, decodeFrame, the flag / ID getters and the
 error-frame byte getters, translated from the working tree on every run (Gen/DataGo.lean), equal Model/Frame.lean for
 every frame and every 32-bit word, and do not panic.  marshalBinary / unmarshalBinary work on a byte slice: the translator
-models the first 16 bytes of the slice (a 128-bit vector, byte k = bits 8k..8k+7) and its length; the bridge is stated for
+models the first 64 bytes of the slice (a 512-bit vector, byte k = bits 8k..8k+7) and its length; the bridge is stated for
 every slice of at least 16 bytes (shorter ones make the Go code panic at its own bounds check, `_ok = false`).
 -/
 import CanVerif.Model.Frame
@@ -60,9 +60,10 @@ theorem bridge_sc_decode (f : Gen.Go.frame) :
   · simp only [frame_decodeFrame_ok, o1, o2, o4, Bool.and_self]
 
 /-- `marshalBinary` into any buffer of at least 16 bytes: ID word, length byte and data are the model's image; the three
-padding bytes keep what the buffer held (the transmitter passes a fresh zeroed buffer) -/
-theorem bridge_sc_marshal (f : Gen.Go.frame) (b : BitVec 128) (n : BitVec 64) (hn : BitVec.ule 16#64 n = true) :
-    frame_marshalBinary_recv f b n = (marshalBinary (scOf f) ||| (b &&& (0xffffff#128 <<< 40))) ∧
+padding bytes and everything after byte 15 keep what the buffer held (the transmitter passes a fresh zeroed buffer) -/
+theorem bridge_sc_marshal (f : Gen.Go.frame) (b : BitVec 512) (n : BitVec 64) (hn : BitVec.ule 16#64 n = true) :
+    frame_marshalBinary_recv f b n =
+      (BitVec.setWidth 512 (marshalBinary (scOf f)) ||| (b &&& ~~~ (0xffffffffffffffff000000ffffffffff#512))) ∧
     frame_marshalBinary_ok f b n = true := by
   unfold_go
   simp only [scOf, marshalBinary]
@@ -71,21 +72,26 @@ theorem bridge_sc_marshal (f : Gen.Go.frame) (b : BitVec 128) (n : BitVec 64) (h
 
 /-- into a zeroed buffer: exactly the model's 16-byte image -/
 theorem bridge_sc_marshal_zero (f : Gen.Go.frame) (n : BitVec 64) (hn : BitVec.ule 16#64 n = true) :
-    frame_marshalBinary_recv f 0#128 n = marshalBinary (scOf f) := by
-  rw [(bridge_sc_marshal f 0#128 n hn).1]; simp
+    BitVec.setWidth 128 (frame_marshalBinary_recv f 0#512 n) = marshalBinary (scOf f) := by
+  rw [(bridge_sc_marshal f 0#512 n hn).1]
+  simp only [scOf, marshalBinary]
+  try unfold Data
+  bv_decide (config := { timeout := 120 })
 
-/-- `unmarshalBinary` of any slice of at least 16 bytes (whatever the frame held before) -/
-theorem bridge_sc_unmarshal (f : Gen.Go.frame) (b : BitVec 128) (n : BitVec 64) (hn : BitVec.ule 16#64 n = true) :
-    scOf (frame_unmarshalBinary_recv f b n) = unmarshalBinary b ∧ frame_unmarshalBinary_ok f b n = true := by
+/-- `unmarshalBinary` of any slice of at least 16 bytes (whatever the frame held before): only the first 16 bytes count -/
+theorem bridge_sc_unmarshal (f : Gen.Go.frame) (b : BitVec 512) (n : BitVec 64) (hn : BitVec.ule 16#64 n = true) :
+    scOf (frame_unmarshalBinary_recv f b n) = unmarshalBinary (BitVec.setWidth 128 b) ∧
+    frame_unmarshalBinary_ok f b n = true := by
   unfold_go
   simp only [scOf, unmarshalBinary]
   try unfold Data
   refine ⟨?_, by bv_decide (config := { timeout := 120 })⟩
   simp only [ScFrame.mk.injEq]
-  refine ⟨by bv_decide (config := { timeout := 120 }), by bv_decide (config := { timeout := 120 }), by bv_decide (config := { timeout := 120 })⟩
+  refine ⟨by bv_decide (config := { timeout := 120 }), by bv_decide (config := { timeout := 120 }),
+    by bv_decide (config := { timeout := 120 })⟩
 
 /-- a slice shorter than 16 bytes: the translated code panics at its bounds check instead of reading or writing -/
-theorem bridge_sc_short (f : Gen.Go.frame) (b : BitVec 128) (n : BitVec 64) (hn : BitVec.ult n 16#64 = true) :
+theorem bridge_sc_short (f : Gen.Go.frame) (b : BitVec 512) (n : BitVec 64) (hn : BitVec.ult n 16#64 = true) :
     frame_marshalBinary_ok f b n = false ∧ frame_unmarshalBinary_ok f b n = false := by
   unfold_go
   constructor <;> bv_decide (config := { timeout := 120 })
